@@ -15,10 +15,10 @@ cd $WT
 run_demo() { rm -rf /tmp/demo-$N; cp -r $D/demo /tmp/demo-$N; grep -rlE "/tmp/wt[0-9]*-C" /tmp/demo-$N 2>/dev/null | xargs -r sed -i -E "s#/tmp/wt[0-9]*-C[0-9]+#$WT#g"; (cd $WT && timeout 900 sh /tmp/demo-$N/run.sh >/tmp/demo-$N.out 2>&1); rc=$?; rm -rf /tmp/demo-$N; (cd $WT && git clean -fdq); return $rc; }
 run_demo; base=$?
 if [ $base -ne 0 ]; then echo "FAIL $N: demo fails on the unpatched tree (rc=$base): $(tail -3 /tmp/demo-$N.out | tr '\n' ' ' | cut -c1-300)"; exit 1; fi
-git update-index -q --refresh; git apply --3way $D/patch.diff >/tmp/confirm.apply 2>&1 || { echo "FAIL $N: patch does not apply: $(head -3 /tmp/confirm.apply | tr '\n' ' ')"; exit 2; }
+git update-index -q --refresh; git apply --3way $D/patch.diff >/tmp/confirm.$N.apply 2>&1 || { echo "FAIL $N: patch does not apply: $(head -3 /tmp/confirm.$N.apply | tr '\n' ' ')"; exit 2; }
 git reset -q
-go build ./... >/tmp/confirm.build 2>&1 || { echo "FAIL $N: does not build"; exit 3; }
-(go test -vet=off -count=1 ./... && cd cmd/arcaflow-codegen && go test -vet=off -count=1 ./...) >/tmp/confirm.test 2>&1 || { echo "FAIL $N: existing suite fails with the patch: $(grep -m3 -- '--- FAIL\|^FAIL' /tmp/confirm.test | tr '\n' ' ')"; exit 4; }
+go build ./... >/tmp/confirm.$N.build 2>&1 || { echo "FAIL $N: does not build"; exit 3; }
+(go test -vet=off -count=1 ./... && cd cmd/arcaflow-codegen && go test -vet=off -count=1 ./...) >/tmp/confirm.$N.test 2>&1 || { echo "FAIL $N: existing suite fails with the patch: $(grep -m3 -- '--- FAIL\|^FAIL' /tmp/confirm.$N.test | tr '\n' ' ')"; exit 4; }
 run_demo; with=$?
 if [ $with -eq 0 ]; then echo "FAIL $N: demo passes with the patch"; exit 5; fi
 echo "CONFIRMED $N (demo rc with patch=$with, without=0; suite passes with patch)"
